@@ -18,7 +18,7 @@ import (
 
 // vh raft cfg <seed> <sequences> <steps> <outdir>
 //
-// Membership-changing runs of the cluster simulator (no crashes, no snapshots) are translated,
+// Membership-changing runs of the cluster simulator (with crashes; no snapshots) are translated,
 // event by event, into actions of the abstract protocol with membership changes in the log
 // (coq/Abs/CfgRaft.v) plus what the nodes look like afterwards; Abs/CfgExec.v (run_hist) checks,
 // inside Coq, that every action is enabled and that the abstract nodes agree with the observed
@@ -103,7 +103,7 @@ func (a *cfgShadow) logLits(n *simNode) []string {
 
 // cfgCrashEnabled: Abs/CfgRaft.v has the durable prefix, flush and crash steps (observations then carry the
 // durable prefix and the runs contain crashes)
-var cfgCrashEnabled = false
+var cfgCrashEnabled = true
 
 func (a *cfgShadow) obs(n *simNode) string {
 	r := n.r
@@ -232,38 +232,86 @@ func (a *cfgShadow) record(c *simCluster, n *simNode, ev string, h absHint) {
 				}
 			}
 		}
-		commitAct := ""
-		if r.commitIndex > a.preCommit && r.commitIndex >= 2 {
+		// abstract match index of a voter as the leader knows it (impl index; self: given)
+		matchOf := func(vid, self uint64) uint64 {
+			if vid == id {
+				return self
+			}
+			if rp := n.l.repls[vid]; n.cur == Leader && rp != nil {
+				return rp.status.matchIndex
+			}
+			if a.ackedTerm[id] == r.term {
+				return a.acked[id][vid] // the leader has stepped down in this event: its bookkeeping is gone
+			}
+			return 0
+		}
+		quorumAt := func(voters []uint64, k, self uint64) []string { // voters known to hold impl index k
 			var q []string
-			for _, vid := range sortedIDs(r.configs.Latest.Nodes) {
-				if !r.configs.Latest.Nodes[vid].Voter {
-					continue
-				}
-				if vid == id {
+			for _, vid := range voters {
+				if matchOf(vid, self) >= k {
 					q = append(q, fmt.Sprint(vid))
-				} else if rp := n.l.repls[vid]; n.cur == Leader && rp != nil {
-					if rp.status.matchIndex >= r.commitIndex {
-						q = append(q, fmt.Sprint(vid))
-					}
-				} else if a.ackedTerm[id] == r.term && a.acked[id][vid] >= r.commitIndex {
-					q = append(q, fmt.Sprint(vid)) // the leader has stepped down in this event: its bookkeeping is gone
 				}
 			}
-			commitAct = fmt.Sprintf("ACommit %d %d%%nat [%s]", id, sat1(r.commitIndex), strings.Join(q, ";"))
+			return q
 		}
-		// entries up to the new commit index were there before it moved; what follows was appended afterwards
-		// (a configuration derived from a pending action is appended once its predecessor is committed)
-		k := 0
-		for k < len(appends) && uint64(from+k+1) <= sat1(r.commitIndex) {
-			k++
+		// The commit index moves, configurations derived from pending actions are appended once their predecessor is
+		// committed, and with a single voter an entry commits when it is appended: replay that order.  cur = impl commit index.
+		cur := a.preCommit
+		final := r.commitIndex
+		for i, ap := range appends {
+			x := uint64(from+i) + 2 // impl index of this entry
+			if strings.HasPrefix(ap, "AReconfig") && cur < x-1 && final >= 2 {
+				// what the leader could commit before appending it, under the configuration then in force
+				voters := a.votersOf(c, post[:from+i])
+				var ms []uint64
+				for _, vid := range voters {
+					ms = append(ms, matchOf(vid, x-1))
+				}
+				sort.Slice(ms, func(p, q int) bool { return ms[p] > ms[q] })
+				if len(ms) > 0 {
+					k1 := ms[len(ms)/2]
+					if k1 > final {
+						k1 = final
+					}
+					if k1 > x-1 {
+						k1 = x - 1
+					}
+					if k1 > cur && k1 >= 2 {
+						acts = append(acts, fmt.Sprintf("ACommit %d %d%%nat [%s]", id, sat1(k1), strings.Join(quorumAt(voters, k1, x-1), ";")))
+						cur = k1
+					}
+				}
+			}
+			acts = append(acts, ap)
 		}
-		acts = append(acts, appends[:k]...)
-		if commitAct != "" {
-			acts = append(acts, commitAct)
+		if final > cur && final >= 2 {
+			last := uint64(len(post)) + 1 // impl index of the leader's last entry
+			acts = append(acts, fmt.Sprintf("ACommit %d %d%%nat [%s]", id, sat1(final), strings.Join(quorumAt(a.votersOf(c, post), final, last), ";")))
 		}
-		acts = append(acts, appends[k:]...)
 	}
 	a.emit(c, acts, id)
+}
+
+// votersOf: the voter list of the last configuration entry among the abstract entries, else the bootstrap voters
+func (a *cfgShadow) votersOf(c *simCluster, lits []string) []uint64 {
+	for i := len(lits) - 1; i >= 0; i-- {
+		if j := strings.Index(lits[i], "PCfg ["); j >= 0 {
+			var vs []uint64
+			for _, x := range strings.Split(strings.TrimSuffix(lits[i][j+6:], "])"), ";") {
+				if v, err := strconv.ParseUint(strings.TrimSpace(x), 10, 64); err == nil {
+					vs = append(vs, v)
+				}
+			}
+			return vs
+		}
+	}
+	var vs []uint64
+	for _, id := range sortedIDs(c.boot) {
+		if c.boot[id].Voter {
+			vs = append(vs, id)
+		}
+	}
+	return vs
 }
 
 func (a *cfgShadow) closing(c *simCluster) {
